@@ -102,6 +102,8 @@ def ref_unpack(raw: bytes | np.ndarray, nbits: int, order: str | None = None) ->
     per = 8 // nbits
     mask = (1 << nbits) - 1
     raw = bytes(bytearray(np.asarray(raw, dtype=np.uint8).tobytes())) if not isinstance(raw, bytes | bytearray) else bytes(raw)
+    if len(raw) > 4096:
+        return _vec_unpack(raw, nbits, order)
     out = np.empty(len(raw) * per, dtype=np.uint8)
     k = 0
     for b in raw:
@@ -110,6 +112,28 @@ def ref_unpack(raw: bytes | np.ndarray, nbits: int, order: str | None = None) ->
             out[k] = (b >> shift) & mask
             k += 1
     return out
+
+
+_VEC_OK: set = set()
+
+
+def _vec_unpack(raw: bytes, nbits: int, order: str) -> np.ndarray:
+    """Vectorised unpack for long inputs (scale lanes); proven equal to the definition above on all 256 byte values before first use."""
+    per = 8 // nbits
+    mask = (1 << nbits) - 1
+
+    def go(a: np.ndarray) -> np.ndarray:
+        out = np.empty((a.size, per), dtype=np.uint8)
+        for j in range(per):
+            shift = nbits * j if order[0] == "l" else nbits * (per - 1 - j)
+            out[:, j] = (a >> shift) & mask
+        return out.reshape(-1)
+
+    if (nbits, order[0]) not in _VEC_OK:
+        probe = bytes(range(256))
+        assert np.array_equal(go(np.frombuffer(probe, dtype=np.uint8)), ref_unpack(probe, nbits, order)), "vectorised reference != definition"
+        _VEC_OK.add((nbits, order[0]))
+    return go(np.frombuffer(raw, dtype=np.uint8))
 
 
 def ref_pack(vals: np.ndarray, nbits: int, order: str | None = None) -> bytes:
